@@ -31,11 +31,13 @@ PROP = "C12"
 RULE = ("type-directed constructions through the public builders only: P(...), P[...](...), PP[pop](...), PP[pop][...](...) with "
         "children/parents written as separate arguments, `|`, `&`, tuples, in shuffled order; variables plain, marked (+X, -X, ~X) "
         "and with intervention subscripts (Y @ X, Y @ (X, +Z), (Y @ X) @ Z); Sum[...](...), *, /, One(), Zero(), Q[...](...); "
-        "each distribution mentions a name at most once; depth <= 5; half of the cases steered into the simple-division family "
-        "(fractions only at the top or directly under a Sum, operands division-free and non-constant), half unrestricted "
-        "(fractions of fractions, fraction factors, constants anywhere); names from the parser's table. Corpus: README/paper "
-        "estimands and the F4/F5 witnesses. A case is non-trivial when the built object has >= 2 leaves and contains a product, "
-        "a sum or a fraction. Thorough adds a token-string stream (mutated printed texts) comparing PyParse with Python's parser.")
+        "each distribution mentions a name at most once; depth <= 5 (built objects up to depth 7, 100+ tokens); 44% of the cases "
+        "steered into the simple-division family (fractions only at the top or directly under a Sum, operands division-free and "
+        "non-constant), 34% unrestricted, 20% shapes that leave the family (Sum * Fraction, constants as operands, divisions by "
+        "fractions, products of fractions, Zero() operands), 2.5% malformed constructions the builders must reject (error taxonomy "
+        "of the interpreter model); names from the parser's table incl. digits, underscores, Pi, π. Corpus: README/paper estimands "
+        "and the F4/F5 witnesses. Token-string stream: printed texts with 0-3 token mutations, Python's parser vs PyParse. "
+        "A case is non-trivial when the built object has >= 2 leaves and contains a product, a sum or a fraction.")
 ASSUMPTIONS = [
     "the theorems quantify over expressions satisfying the decidable invariant `built` (children/parents/ranges/(co)domains/"
     "subscripts sorted with each name once, products flat and in stable-sorted order without constant factors, Zero() only as the "
@@ -110,7 +112,7 @@ class Gen:
         if others and rng.random() < p_cf:
             k = min(len(others), rng.choice([1, 1, 1, 2, 2, 3]))
             ivn = rng.sample(others, k)
-            ivs = [self.iv(n, stars[n]) for n in ivn]
+            ivs = [self.iv(n, stars[n] if rng.random() > 0.02 else not stars[n]) for n in ivn]   # rarely: a clash -> ValueError
             style = rng.random()
             if k == 1:
                 a = ["bin", "matmul", a, ivs[0]]
@@ -242,7 +244,7 @@ class Gen:
         if r == 4:
             return ["bin", "div", ["bin", "div", sub(), sub()], ["bin", "div", sub(), sub()]]
         if r == 5:
-            return sm(one)
+            return sm(one) if rng.random() < 0.7 else sm(zero)
         if r == 6:
             return ["bin", "mul", ["bin", "div", sub(), sub()], ["bin", "div", sub(), sub()]]
         if r == 7:
@@ -254,6 +256,38 @@ class Gen:
         if r == 10:
             return ["bin", "div", ["bin", "mul", sm(one), sub()], ["bin", "mul", sub(), sm(sub())]]
         return ["bin", "div", sub(), ["bin", "mul", ["bin", "div", sub(), sub()], sub()]]
+
+
+    def malformed(self):
+        """constructions the builders reject (error taxonomy of the interpreter model): the real code must raise, or
+        return something that is not an expression, exactly when the model does"""
+        rng = self.rng
+        a, b, c, d = (_n(n) for n in (self.pool + self.pool)[:4])
+        pa = ["call", ["k", "P"], a]
+        r = rng.randrange(12)
+        if r == 0:
+            return ["call", ["k", "P"], ["bin", "bor", a, b], ["bin", "bor", c, d]]          # two conditionals
+        if r == 1:
+            return ["call", ["k", "P"]]                                                        # no argument
+        if r == 2:
+            return ["call", ["sub", ["k", "Sum"], ["un", "pos", a]], pa]                       # starred range
+        if r == 3:
+            return ["bin", "add", pa, ["call", ["k", "P"], b]]                                 # no __add__
+        if r == 4:
+            return ["call", pa, b]                                                             # not callable
+        if r == 5:
+            return ["call", ["k", "One"], a]                                                   # One() takes no arguments
+        if r == 6:
+            return ["call", ["k", "P"], ["tup", a, b], c]                                      # iterable + args
+        if r == 7:
+            return ["bin", "div", pa, ["call", ["k", "Zero"]]]                                 # ZeroDivisionError
+        if r == 8:
+            return ["call", ["sub", ["sub", ["k", "P"], a], b], c]                             # P[A][B]: partial not subscriptable
+        if r == 9:
+            return ["call", ["k", "P"], ["bin", "bor", a, ["bin", "bor", b, c]]]               # conditional on a conditional
+        if r == 10:
+            return ["bin", "mul", pa, a]                                                       # expression * variable
+        return ["call", ["k", "P"], ["bin", "matmul", ["bin", "matmul", a, b], ["un", "pos", b]]]   # Y @ B @ +B: overlap
 
 
 def load_corpus():
@@ -291,7 +325,14 @@ def cases(rng: random.Random, tier: str):
         g = Gen(random.Random(rng.randrange(1 << 60)))
         depth = g.rng.choice([1, 2, 2, 3, 3, 4, 5])
         r = g.rng.random()
-        a = g.simple(depth) if r < 0.45 else (g.free(depth) if r < 0.8 else g.tricky(min(depth, 3)))
+        if r < 0.44:
+            a = g.simple(depth)
+        elif r < 0.78:
+            a = g.free(depth)
+        elif r < 0.975:
+            a = g.tricky(min(depth, 3))
+        else:
+            a = g.malformed()
         out.append({"kind": "expr", "build": a})
     m = {"quick": 1500, "escalated": 6000}.get(tier, 15000)
     exprs = [c for c in out if c["kind"] == "expr"]  # (special cases have no token stream)
